@@ -57,6 +57,8 @@ pub struct WorkerOut {
     pub fault_variants: u64,
     #[serde(default)]
     pub c08_cells: BTreeMap<String, u64>,
+    #[serde(default)]
+    pub last_idx: u64,
 }
 
 static CUR_IDX: AtomicU64 = AtomicU64::new(0);
@@ -144,8 +146,22 @@ fn worker(args: &[String]) -> i32 {
     }
     let mut out = WorkerOut::default();
     let mut log = crate::rng::Fp::default();
+    let progress = std::fs::File::create(format!("{}.progress", outfile)).ok();
+    let note = |idx: u64, f: Option<&crate::program::Fault>| {
+        use std::os::unix::fs::FileExt;
+        if let Some(p) = &progress {
+            let (a, b, c) = f.map(|f| (f.site as u64, f.nth as u64, f.errno as u64)).unwrap_or((255, 0, 0));
+            let mut buf = [0u8; 32];
+            buf[0..8].copy_from_slice(&idx.to_le_bytes());
+            buf[8..16].copy_from_slice(&a.to_le_bytes());
+            buf[16..24].copy_from_slice(&b.to_le_bytes());
+            buf[24..32].copy_from_slice(&c.to_le_bytes());
+            let _ = p.write_at(&buf, 0);
+        }
+    };
     for idx in from..from + count {
         CUR_IDX.store(idx, Ordering::Relaxed);
+        note(idx, None);
         unsafe {
             libc::alarm(20);
         }
@@ -191,6 +207,7 @@ fn worker(args: &[String]) -> i32 {
                     break; // this base program already carries random faults
                 }
                 let mut q = p.clone();
+                note(idx, Some(&f));
                 q.faults = vec![f];
                 unsafe {
                     libc::alarm(20);
@@ -206,8 +223,43 @@ fn worker(args: &[String]) -> i32 {
         libc::alarm(0);
     }
     out.log_fp = log.0;
+    out.last_idx = from + count;
     std::fs::write(outfile, serde_json::to_vec(&out).unwrap()).unwrap();
+    let _ = std::fs::remove_file(format!("{}.progress", outfile));
     0
+}
+
+/// Does the program kill the process (abort, stack overflow ...) when run in a child?
+fn dies_in_child(p: &Program, tag: &str) -> bool {
+    let path = format!("{}/work/abort-probe-{}-{}.json", verif_dir(), std::process::id(), tag);
+    let rf = ReplayFile {
+        property: "-".into(),
+        class: "process.abort[]".into(),
+        violation: abort_violation("-", "probe"),
+        found_by: json!({}),
+        program: p.clone(),
+        trace: vec![],
+    };
+    if std::fs::write(&path, serde_json::to_vec(&rf).unwrap()).is_err() {
+        return false;
+    }
+    let st = Command::new(std::env::current_exe().unwrap()).args(["replay", &path]).stdout(Stdio::null()).stderr(Stdio::null()).status();
+    let _ = std::fs::remove_file(&path);
+    match st {
+        Ok(s) => {
+            use std::os::unix::process::ExitStatusExt;
+            s.signal().is_some()
+        }
+        Err(_) => false,
+    }
+}
+
+fn abort_violation(prop: &str, detail: &str) -> Violation {
+    let mut props = vec!["C08".to_string(), "C15".to_string()];
+    if !props.iter().any(|p| p == prop) && prop != "-" {
+        props.push(prop.to_string());
+    }
+    Violation { rule: "process.abort".into(), props, flags: vec![], detail: detail.to_string(), step: 0 }
 }
 
 #[derive(Deserialize, Default, Debug, Clone)]
@@ -317,19 +369,23 @@ fn check(prop: &str, tier: &str) -> i32 {
     std::fs::create_dir_all(format!("{}/evidence", verif_dir())).ok();
     let per = (total + nw - 1) / nw;
     let mut children = Vec::new();
+    let spawn = |w: u64, from: u64, cnt: u64, gen: u32| -> Result<(std::process::Child, String, u64, u64, u64, u32), String> {
+        let out = format!("{}/{}-{}-{}-{}.json", work, prop, std::process::id(), w, gen);
+        Command::new(&exe)
+            .args(["worker", prop, &base.to_string(), &from.to_string(), &cnt.to_string(), &out])
+            .stdin(Stdio::null())
+            .spawn()
+            .map(|c| (c, out, from, cnt, w, gen))
+            .map_err(|e| e.to_string())
+    };
     for w in 0..nw {
         let from = w * per;
         if from >= total {
             break;
         }
         let cnt = per.min(total - from);
-        let out = format!("{}/{}-{}-{}.json", work, prop, std::process::id(), w);
-        let ch = Command::new(&exe)
-            .args(["worker", prop, &base.to_string(), &from.to_string(), &cnt.to_string(), &out])
-            .stdin(Stdio::null())
-            .spawn();
-        match ch {
-            Ok(c) => children.push((c, out, from, cnt)),
+        match spawn(w, from, cnt, 0) {
+            Ok(c) => children.push(c),
             Err(e) => {
                 eprintln!("HARNESS-ERROR cannot spawn worker: {}", e);
                 return 2;
@@ -339,11 +395,53 @@ fn check(prop: &str, tier: &str) -> i32 {
     let mut merged = WorkerOut::default();
     let mut distinct: BTreeSet<u64> = BTreeSet::new();
     let mut log_fps = Vec::new();
-    for (mut c, out, from, cnt) in children {
+    let mut aborts: Vec<Found> = Vec::new();
+    let mut skipped_after_aborts = 0u64;
+    let mut queue: std::collections::VecDeque<_> = children.into();
+    while let Some((mut c, out, from, cnt, w, gen)) = queue.pop_front() {
         let st = c.wait().unwrap();
         if !st.success() {
-            eprintln!("HARNESS-ERROR worker for run indices {}..{} died: {:?} (VERIF_SEED={})", from, from + cnt, st, base);
-            return 2;
+            use std::os::unix::process::ExitStatusExt;
+            // a worker died: if the code under test killed the process (abort, stack overflow)
+            // that is a violation of the run it was executing, not a harness error
+            let prog = std::fs::read(format!("{}.progress", out)).ok();
+            let _ = std::fs::remove_file(format!("{}.progress", out));
+            let rd = |b: &[u8], i: usize| u64::from_le_bytes(b[i * 8..i * 8 + 8].try_into().unwrap());
+            match (st.signal(), prog) {
+                (Some(sig), Some(b)) if b.len() == 32 && st.code() != Some(4) => {
+                    let idx = rd(&b, 0);
+                    let mut p = program_for(prop, base, idx);
+                    if rd(&b, 1) != 255 {
+                        p.faults = vec![crate::program::Fault { site: rd(&b, 1) as u8, nth: rd(&b, 2) as u32, errno: rd(&b, 3) as i32 }];
+                    }
+                    if aborts.len() >= 6 {
+                        // plenty of fatal runs already: the rest of this range is skipped
+                        skipped_after_aborts += from + cnt - idx;
+                        continue;
+                    }
+                    if !dies_in_child(&p, "confirm") {
+                        eprintln!("HARNESS-ERROR worker for run indices {}..{} died with signal {} at run index {} but the run does not kill a fresh process (VERIF_SEED={})", from, from + cnt, sig, idx, base);
+                        return 2;
+                    }
+                    aborts.push(Found { idx, run_seed: run_seed(base, idx), violation: abort_violation(prop, &format!("the process was killed by signal {} while executing this history (abort / double panic / stack overflow inside the code under test)", sig)), program: p });
+                    // carry on after the fatal run
+                    let next = idx + 1;
+                    if next < from + cnt && gen < 3 {
+                        match spawn(w, next, from + cnt - next, gen + 1) {
+                            Ok(c) => queue.push_back(c),
+                            Err(e) => {
+                                eprintln!("HARNESS-ERROR cannot spawn worker: {}", e);
+                                return 2;
+                            }
+                        }
+                    }
+                    continue;
+                }
+                _ => {
+                    eprintln!("HARNESS-ERROR worker for run indices {}..{} died: {:?} (VERIF_SEED={})", from, from + cnt, st, base);
+                    return 2;
+                }
+            }
         }
         let w: WorkerOut = match std::fs::read(&out).ok().and_then(|b| serde_json::from_slice(&b).ok()) {
             Some(w) => w,
@@ -390,6 +488,13 @@ fn check(prop: &str, tier: &str) -> i32 {
         }
         log_fps.push(format!("{:016x}", w.log_fp));
     }
+    if skipped_after_aborts > 0 {
+        println!("note: {} runs were skipped after repeated process aborts", skipped_after_aborts);
+    }
+    for a in &aborts {
+        *merged.own_class_counts.entry(a.violation.class()).or_insert(0) += 1;
+    }
+    merged.own.extend(aborts);
     // ---- violations: one representative per class, minimised, replay-verified
     let known = load_known();
     merged.own.sort_by_key(|f| f.idx);
@@ -401,6 +506,32 @@ fn check(prop: &str, tier: &str) -> i32 {
     let mut known_lines = Vec::new();
     let mut viol_records = Vec::new();
     for (class, f) in &by_class {
+        if f.violation.rule == "process.abort" {
+            // cannot be re-run in this process: minimise with child processes
+            let (min, ms) = minimise(&f.program, 250, &mut |p| dies_in_child(p, "min"));
+            let fname = format!("{}/replays/{}-{}-{}.json", verif_dir(), prop, sanitize(class), f.run_seed);
+            let rf = ReplayFile {
+                property: prop.to_string(),
+                class: class.clone(),
+                violation: f.violation.clone(),
+                found_by: json!({"VERIF_SEED": base, "run_index": f.idx, "run_seed": f.run_seed, "original_ops": f.program.count_ops(), "minimised_ops": min.count_ops(), "minimiser_candidates": ms.candidates}),
+                program: min.clone(),
+                trace: vec!["(the process dies; run `bin/check replay` on this file to see it)".into()],
+            };
+            std::fs::write(&fname, serde_json::to_string_pretty(&rf).unwrap()).unwrap();
+            let count = merged.own_class_counts.get(class).copied().unwrap_or(0);
+            if let Some(k) = match_known(&known, &f.violation) {
+                known_lines.push(format!("KNOWN-FINDING: property={} {} [{}; {} runs; replay={}]", prop, k.description, k.id, count, fname));
+                viol_records.push(json!({"class": class, "known_finding": k.id, "runs": count, "replay": fname}));
+            } else {
+                n_viol += 1;
+                println!("VIOLATION property={} replay={}", prop, fname);
+                println!("  rule=process.abort runs={} minimised {} -> {} ops", count, f.program.count_ops(), min.count_ops());
+                println!("  {}", f.violation.detail);
+                viol_records.push(json!({"class": class, "runs": count, "replay": fname, "detail": f.violation.detail}));
+            }
+            continue;
+        }
         // the original program must reproduce in this process too, else it is a harness error
         let again = first_violation(&f.program);
         if again.as_ref().map(|v| v.class()) != Some(class.clone()) {
